@@ -4,7 +4,7 @@ func init() {
 	props["C06"] = &propDef{
 		info: PropInfo{
 			Bounds: []string{
-				"VERTICAL segments only: both end points at one concrete longitude/latitude (139.75, 35.5), hZoom 20, vZoom case-split over {0, 10, 25, 26, 33, 34, 35} (both sides of the threshold switch at 34)",
+				"VERTICAL segments only: both end points at one concrete longitude/latitude (139.75, 35.5), (hZoom, vZoom) case-split over hZoom 20 x vZoom {0, 10, 25, 26, 33, 34, 35}, plus (31,33), (31,35), (35,34), (30,35) and the single-zoom forms 25 and 35 (both sides of both threshold switches, h >= 31 and v >= 34)",
 				"grid altitudes: both altitudes any multiples of 2^-20 m in [-2^25, 2^25) m whose cells are at most `span` apart (quick 4, thorough 8); every midpoint of the recursion is then exact in binary64 and the whole run is decided over the integers (relaxed encoding with dyadic exactness, one-shot z3 5.1 per query): the result is exactly the contiguous run of cells between the end cells (count + range + pairwise distinct), both end voxels included, one ID when the ends share a cell; at vZoom 25 also: the spatial-ID (h = v) form is the same set",
 				"arbitrary doubles (exact IEEE, cvc5), thorough tier only: vZoom 0 and 10, end cells at most 1 apart",
 				"both end points in one voxel (any points, any zooms 0..35 case-sampled; float arithmetic uninterpreted): the result is that single ID",
@@ -24,9 +24,27 @@ func init() {
 				g.Stateless = true // z3's one-shot pipeline decides these Int/Real goals in milliseconds, its incremental core times out
 				g.Unwind = 60
 				g.Timeout = 120000
-				g.MaxSeconds = 3000
+				g.MaxSeconds = 300
 				is = append(is, g)
 			}
+			// horizontal zooms on the far side of the horizontal threshold switch (h >= 31) combined with both sides of the vertical one
+			for _, z := range [][2]int{{31, 33}, {31, 35}, {35, 34}, {30, 35}} {
+				g := mk("shape", "VerifC06Vertical", cs("h", z[0], "v", z[1], "span", span, "grid", 20, "spatial", 0))
+				g.Relaxed = true
+				g.Solver = Z3New
+				g.Stateless = true
+				g.Unwind = 60
+				g.Timeout = 120000
+				g.MaxSeconds = 300
+				is = append(is, g)
+			}
+			sp35 := mk("shape", "VerifC06Vertical", cs("h", 35, "v", 35, "span", 3, "grid", 20, "spatial", 1))
+			sp35.Relaxed = true
+			sp35.Solver = Z3New
+			sp35.Stateless = true
+			sp35.Unwind = 60
+			sp35.Timeout = 120000
+			is = append(is, sp35)
 			sp := mk("shape", "VerifC06Vertical", cs("h", 25, "v", 25, "span", 2, "grid", 20, "spatial", 1))
 			sp.Relaxed = true
 			sp.Solver = Z3New
